@@ -552,3 +552,57 @@ mutant("c08-neutral-for-closeable", "C08", "asynctools.py",
 neutral("c08-exit-signature", ["C08", "C07", "C06"], "asynctools.py",
         "    async def __aexit__(self, *args: Any) -> None:\n        await self._borrowed_iter._aclose_wrapper()",
         "    async def __aexit__(self, exc_type: Any, exc_val: Any, exc_tb: Any) -> None:\n        await self._borrowed_iter._aclose_wrapper()")
+
+# --------------------------------------------------------------------------- C03
+mutant("c03-takewhile-no-awaitify", "C03", "itertools.py",
+       "    async with ScopedIter(iterable) as async_iter:\n        predicate = _awaitify(predicate)\n        async for item in async_iter:\n            if await predicate(item):\n                yield item\n            else:\n                break\n",
+       "    async with ScopedIter(iterable) as async_iter:\n        async for item in async_iter:\n            if predicate(item):\n                yield item\n            else:\n                break\n",
+       rule="R03.1", unit="itertools.takewhile")
+mutant("c03-filter-result-not-awaited", "C03", "builtins.py",
+       "                if await function(item):\n                    yield item\n",
+       "                if function(item):\n                    yield item\n", rule="R03.1", unit="builtins.filter")
+mutant("c03-key-iscoroutinefunction-dispatch", "C03", "builtins.py",
+       "            key = _awaitify(key)\n            best_key = await key(best)\n",
+       "            from inspect import iscoroutinefunction as _isco\n            best_key = (await key(best)) if _isco(key) else key(best)\n            key = _awaitify(key)\n",
+       rule="R03.1", unit="builtins._min_max")
+mutant("c03-merge-key-raw", "C03", "heapq.py",
+       "    a_key = awaitify(key) if key is not None else None\n", "    a_key = key\n", rule="R03.1")
+mutant("c03-groupby-key-raw", "C03", "itertools.py",
+       "            else _awaitify(key)\n", "            else key  # type: ignore\n", rule="R03.1")
+mutant("c03-exitstack-callback-raw", "C03", "contextlib.py",
+       "partial(self._aexit_callback, partial(awaitify(callback), *args, **kwargs))",
+       "partial(self._aexit_callback, partial(callback, *args, **kwargs))", props=["C03", "C14"])
+mutant("c03-sum-sync-for", "C03", "builtins.py",
+       "    async with ScopedIter(iterable) as item_iter:\n        async for item in item_iter:\n            total += item\n",
+       "    for item in iterable:  # type: ignore\n        total += item\n", rule="R03.2", unit="builtins.sum")
+mutant("c03-list-async-for-direct", "C03", "builtins.py",
+       "    async with ScopedIter(iterable) as item_iter:\n        return [element async for element in item_iter]\n",
+       "    return [element async for element in iterable]  # type: ignore\n", rule="R03.2", unit="builtins.list")
+mutant("c03-sorted-builtin-fastpath", "C03", "builtins.py",
+       "        if key is None:\n            items: _sync_builtins.list[Any] = [item async for item in item_iter]\n",
+       "        if key is None and isinstance(iterable, _sync_builtins.list):\n            return _sync_builtins.sorted(iterable, reverse=reverse)\n        if key is None:\n            items: _sync_builtins.list[Any] = [item async for item in item_iter]\n",
+       rule="R03.2", unit="builtins.sorted")
+mutant("c03-aiter-sync-first", "C03", "_core.py",
+       "    if isinstance(subject, AsyncIterable):\n        return subject.__aiter__()\n    else:\n        return _aiter_sync(subject).__aiter__()\n",
+       "    if isinstance(subject, Iterable):\n        return _aiter_sync(subject).__aiter__()\n    else:\n        return subject.__aiter__()  # type: ignore\n",
+       rule="R03.3", unit="_core.aiter")
+mutant("c03-awaitify-calls-twice", "C03", "_core.py",
+       "            if isinstance(value, Awaitable):\n                self._async_call = self.__wrapped__  # type: ignore\n                return value  # pyright: ignore\n",
+       "            if isinstance(value, Awaitable):\n                self._async_call = self.__wrapped__  # type: ignore\n                return self.__wrapped__(*args, **kwargs)  # pyright: ignore\n",
+       rule="R03.3", unit="_core.Awaitify.__call__")
+mutant("c03-awaitify-plain-value", "C03", "_core.py",
+       "                self._async_call = force_async(self.__wrapped__)  # type: ignore\n                return await_value(value)\n",
+       "                self._async_call = force_async(self.__wrapped__)  # type: ignore\n                return value  # type: ignore\n",
+       rule="R03.3")
+mutant("c03-awaitify-caches-wrong-flavour", "C03", "_core.py",
+       "                self._async_call = force_async(self.__wrapped__)  # type: ignore\n",
+       "                self._async_call = self.__wrapped__  # type: ignore\n", rule="R03.3")
+mutant("c03-nlargest-plain-def", "C03", "heapq.py",
+       "async def nsmallest(\n    iterable: AnyIterable[T],\n    n: int,\n    key: Optional[Callable[[Any], Awaitable[Any]]] = None,\n) -> \"list[T]\":",
+       "def nsmallest(\n    iterable: AnyIterable[T],\n    n: int,\n    key: Optional[Callable[[Any], Awaitable[Any]]] = None,\n) -> \"list[T]\":",
+       rule="R03.4",
+       edits=[("async def nsmallest(\n", "def nsmallest(\n"),
+              ("    return await _largest(iterable=iterable, n=n, key=a_key, reverse=True)\n", "    return []\n")])
+neutral("c03-awaitify-new-name", ["C03", "C06", "C17"], "itertools.py",
+        "        predicate = _awaitify(predicate)\n        async for item in async_iter:\n            if await predicate(item):\n                yield item\n            else:\n                break\n",
+        "        apredicate = _awaitify(predicate)\n        async for item in async_iter:\n            keep = apredicate(item)\n            if await keep:\n                yield item\n            else:\n                break\n")
